@@ -487,6 +487,11 @@ size_t ZSTD_seekable_initAdvanced(ZSTD_seekable* zs, ZSTD_seekable_customFile sr
 size_t ZSTD_seekable_decompress(ZSTD_seekable* zs, void* dst, size_t len, unsigned long long offset)
 {
     unsigned long long const eos = zs->seekTable.entries[zs->seekTable.tableLen].dOffset;
+    if (offset >= eos) {
+        /* nothing to read at or beyond the end of the content
+         * (eos - offset below would wrap around) */
+        return 0;
+    }
     if (offset + len > eos) {
         len = eos - offset;
     }
